@@ -5,3 +5,5 @@ package sftp
 func vhook(point string, a, b uint64) {}
 
 func vhookPage(point string, order uint32, page []byte) {}
+
+func vhookChan(point string, sid uint32, ch any) {}
